@@ -90,6 +90,15 @@ Init == arts = <<>> /\ old = <<>> /\ proc = 1 /\ live = {} /\ imported = FALSE
 \* importing SPSDK may draw from the generator (n values); what is drawn there must still not end up in two artefacts
 Import(n) == ~imported /\ n \in Nat /\ imported' = TRUE /\ UNCHANGED <<arts, old, proc, live>>
 
+\* state updates without the guards (the implementation-shaped spec FreshImpl uses them: real code does not check anything)
+RecordConstruct(k, h, ex, vals) ==
+  /\ arts' = Append(arts, Rec(k, h, ex, vals)) /\ old' = Append(old, {}) /\ live' = live \cup {Len(arts) + 1}
+  /\ UNCHANGED <<proc, imported>>
+Exported(a, vals) == [Art(a) EXCEPT !.val = [f \in Fields(Art(a).kind) |-> IF f \in DOMAIN vals THEN vals[f] ELSE 0]]
+RecordExport(a, vals) ==
+  /\ arts' = [arts EXCEPT ![a] = Exported(a, vals)] /\ old' = [old EXCEPT ![a] = old[a] \cup SelfVals(Art(a))]
+  /\ UNCHANGED <<proc, live, imported>>
+
 \* a new artefact; vals = the fields observable right after construction; `excused` fields are recorded but not asserted
 Construct(k, h, ex, vals, excused) ==
   LET a == Len(arts) + 1
@@ -98,26 +107,29 @@ Construct(k, h, ex, vals, excused) ==
   /\ k \in Kinds /\ ex \in ExOf(k, h)
   /\ DOMAIN vals \subseteq Fields(k) /\ DOMAIN vals # {} /\ \A f \in DOMAIN vals : vals[f] # 0
   /\ NoShared(a, r, (Fields(k) \ ex) \ excused)
-  /\ NonceOk(a, r) \/ ToSet(CtrOf(k)) \cap excused # {}
-  /\ arts' = Append(arts, r) /\ old' = Append(old, {}) /\ live' = live \cup {a}
-  /\ UNCHANGED <<proc, imported>>
+  /\ (NonceOk(a, r) \/ ToSet(CtrOf(k)) \cap excused # {})
+  /\ RecordConstruct(k, h, ex, vals)
 
 \* the artefact is serialised; vals = every field as found in the exported bytes (skip: narrow fields left out)
 Export(a, vals, skip, excused) ==
   LET k == Art(a).kind
-      r == [Art(a) EXCEPT !.val = [f \in Fields(k) |-> IF f \in DOMAIN vals THEN vals[f] ELSE 0]] IN
+      r == Exported(a, vals) IN
   /\ a \in live
   /\ skip \subseteq Narrow(k) /\ DOMAIN vals = Fields(k) \ skip /\ \A f \in DOMAIN vals : vals[f] # 0
   /\ NoShared(a, r, (Fields(k) \ r.ex) \ excused)
-  /\ NonceOk(a, r) \/ ToSet(CtrOf(k)) \cap excused # {}
-  /\ arts' = [arts EXCEPT ![a] = r] /\ old' = [old EXCEPT ![a] = old[a] \cup SelfVals(Art(a))]
-  /\ UNCHANGED <<proc, live, imported>>
+  /\ (NonceOk(a, r) \/ ToSet(CtrOf(k)) \cap excused # {})
+  /\ RecordExport(a, vals)
 
 \* the interpreter ends, a new one starts: its artefacts are gone, the values they carried are not forgotten
 Restart == proc' = proc + 1 /\ live' = {} /\ imported' = FALSE /\ UNCHANGED <<arts, old>>
 
 \* ---------------------------------------------------------------------------------- the property as state invariants
-NoSharedSecret == \A a, b \in DOMAIN arts : a # b => (SelfVals(Art(a)) \cup old[a]) \cap Has(b) = {}
+GivenVals(r) == {r.val[f] : f \in Fields(r.kind) \cap r.ex} \ {0}
+AllSelf(a) == SelfVals(Art(a)) \cup old[a]
+\* two artefacts never share a value SPSDK chose, and SPSDK never "chooses" a value an earlier artefact got from its user
+\* (the other direction is legitimate: a user may feed the key SPSDK generated for one build into the next, e.g. HAB SecretKey_ReuseDek)
+NoSharedSecret == \A a, b \in DOMAIN arts : a # b => /\ AllSelf(a) \cap AllSelf(b) = {}
+                                                      /\ (b < a => AllSelf(a) \cap GivenVals(Art(b)) = {})
 NoNonceReuse == \A a, b \in DOMAIN arts :
                   (a # b /\ HasPair(Art(a)) /\ HasPair(Art(b)) /\ ~UserPair(Art(a))) => PairOf(Art(a)) # PairOf(Art(b))
 TypeOK == /\ Len(old) = Len(arts) /\ live \subseteq DOMAIN arts
